@@ -244,21 +244,82 @@ KNOWN_ELSEWHERE = {
     "read_graphml_file", "read_graphml_string", "write_graphml_file", "ordered", "reversed", "with_weight",
     "from_name", "from_name_and_attributes", "directed", "directed_create_missing", "multi_directed",
     "multi_undirected", "undirected", "undirected_create_missing", "verif_snapshot", "size",
-    # crate-internal helpers in private modules (not reachable from outside the crate)
-    "push_fringe_node", "get_directed_triangles_and_degrees", "get_directed_weighted_triangles_and_degrees",
-    "get_triangles_and_degrees", "get_weighted_triangles_and_degrees", "get_adjacent_nodes_without",
-    "get_neighbors_of_nodes", "get_normalized_edge_weight", "contains_path_through_node",
+    "contains_path_through_node",
 }
 
 
+def _strip_comments(txt):
+    txt = re.sub(r"/\*.*?\*/", "", txt, flags=re.S)
+    return re.sub(r"//[^\n]*", "", txt)
+
+
 def scan_pub_fns(repo="/repo"):
-    found = set()
-    for d, _, fs in os.walk(os.path.join(repo, "src")):
-        for f in fs:
-            if f.endswith(".rs") and not f.startswith("main"):
-                for m in re.finditer(r"^\s*pub fn\s+(\w+)", open(os.path.join(d, f), errors="replace").read(), flags=re.M):
-                    found.add(m.group(1))
-    return found
+    """names of the `pub fn`s that are reachable from outside the crate: free functions of modules that
+    are public all the way up (or re-exported with `pub use`), and methods of publicly exported types.
+    `pub fn`s of private helper modules are internal and are not the sweep's business."""
+    src = os.path.join(repo, "src")
+    mods = {}      # module path tuple -> file
+
+    def module_file(parent_dir, name):
+        for cand in (os.path.join(parent_dir, name + ".rs"), os.path.join(parent_dir, name, "mod.rs")):
+            if os.path.exists(cand):
+                return cand
+        return None
+
+    public_free, public_types, found = set(), set(), set()
+
+    def walk(path, file, is_pub):
+        txt = _strip_comments(open(file, errors="replace").read())
+        d = os.path.dirname(file) if os.path.basename(file) in ("lib.rs", "mod.rs") else os.path.join(
+            os.path.dirname(file), os.path.basename(file)[:-3])
+        globs, names = set(), set()
+        for m in re.finditer(r"^\s*pub use\s+(?:self::|crate::)?([\w:]+)::(\*|\{[^}]*\}|\w+)\s*;", txt, flags=re.M):
+            child = m.group(1).split("::")[0]
+            what = m.group(2)
+            if what == "*":
+                globs.add(child)
+            else:
+                for nm in re.findall(r"\w+", what):
+                    names.add((child, nm))
+        # free functions and types of this module
+        depth = 0
+        impl_type = []
+        for line in txt.splitlines():
+            if re.match(r"^impl\b", line):
+                hdr = re.sub(r"^impl\s*<[^>]*>", "impl", line)
+                t = re.findall(r"\b([A-Z]\w*)\b", hdr.split(" for ")[-1])
+                impl_type = [t[0]] if t else ["?"]
+            elif re.match(r"^\}", line):
+                impl_type = []
+            mf = re.match(r"^(\s*)pub fn\s+(\w+)", line)
+            if mf:
+                if mf.group(1) == "" and is_pub:
+                    public_free.add(mf.group(2))
+                mods.setdefault(path, []).append((mf.group(2), mf.group(1) != "", impl_type[0] if impl_type else None))
+            mt = re.match(r"^pub (?:struct|enum)\s+(\w+)", line)
+            if mt and is_pub:
+                public_types.add(mt.group(1))
+        for m in re.finditer(r"^\s*(pub\s+)?mod\s+(\w+)\s*;", txt, flags=re.M):
+            child = m.group(2)
+            cf = module_file(d, child)
+            if cf is None:
+                continue
+            child_pub = is_pub and bool(m.group(1))
+            walk(path + (child,), cf, child_pub)
+            if is_pub:
+                for nm, is_method, ty in mods.get(path + (child,), []):
+                    if not is_method and (child in globs or (child, nm) in names):
+                        public_free.add(nm)
+                for (c, nm) in names:
+                    if c == child and nm[:1].isupper():
+                        public_types.add(nm)
+
+    walk((), os.path.join(src, "lib.rs"), True)
+    for path, fns in mods.items():
+        for nm, is_method, ty in fns:
+            if is_method and ty in public_types:
+                found.add(nm)
+    return found | public_free
 
 
 def uncovered_pub_fns():
